@@ -524,7 +524,7 @@ func domFixed[T any](n int, to func([]int) T, from func(T) []int) dom[T] {
 			}
 			return n < 2 || x[0] == y[0]
 		},
-		ntRule: "a and b differ and (arity >= 2) tie in the first component",
+		ntRule: "a and b differ and (arity >= 2) tie in the first component (near-copies: one uniformly chosen position changed, or two in opposite directions; quick tier: first changed position <= 14)",
 	}
 }
 
